@@ -22,6 +22,10 @@ def _mode(call):
 
 def check(ctx):
     run, repo, res = ctx.run, ctx.repo, ctx.res
+    # a generator of the checkpoint machinery that is closed because the run failed does not keep the steps before it going
+    from rules import errors as _err8
+    n8 = _err8.r14_generator_exit(ctx, {'dataflows.processors.stream', 'dataflows.processors.checkpoint', 'dataflows.processors.unstream'})
+    run.floor('R14g', n8, 3, 'generators of the checkpoint modules')
     run.rule('TMP', 'TEMP-NAME: the only file the checkpoint writer opens for writing is <final name> + a non-empty constant suffix; '
                     'the only call that creates the final name is one rename of exactly that temp name to itself minus the suffix; '
                     'no other open-for-write / copy / move / link exists in the writer and checkpoint modules')
